@@ -1,59 +1,87 @@
-import IpamVerif.System
-import IpamVerif.Facts
+import IpamVerif.BootBasics
+import IpamVerif.Restart
 /-!
 # C03 — a restart at any instant loses no assignment and resurrects none
 
-Crash points.  In the model a work item performs its API writes inside one `step`; everything else it
-does lives in `alloc`, the caches and the queues.  `boot` (the constructor followed by the informers'
-initial listing) ignores all of these: the new incarnation is a function of the API state alone
-(`boot_memoryless`).  Hence a crash after a write = the step with that write applied (`lost`), then
-`boot`; a crash before the write = the step with the write not applied (`fail`), then `boot`; and in
-both cases whatever the crashed item had reserved in memory is gone (`boot_forgets_reservations`).
-That the other guarantees keep holding afterwards is by construction of the history theorems: they
-quantify over event lists that may contain `boot` anywhere.
-PARTIAL: "no CIDR held by an existing node is handed out again" after the restart is C01's invariant
-re-established by `boot`; it is proved for the recorded holders only (see `Props/C01.lean`) and is false
-for the known findings P10 / P12 / P15 (nodes whose labels no longer select the ClusterCIDR that
-records them, overlapping ClusterCIDRs with different block sizes, deleting ClusterCIDRs kept alive by a
-foreign finalizer).
+**Proved, for every history of the fragment with restarts (`restarts_keep_everything`).**  `Restart.Inv3` — the
+invariant of `Safety.lean` (C01) together with a tie between every mapped entry and a ClusterCIDR object from which
+it can be rebuilt — holds in the start state, is preserved by every event of the fragment *and by a restart at any
+instant* (`Restart.inv_boot`: the pools are rebuilt from the listed objects, every listed node that exists, is not
+being deleted and has pod CIDRs is recorded again in exactly one entry, nothing else is recorded).  Consequences,
+for unbounded histories with any number of restarts:
+
+* `no_overlap_across_restarts` — no pod CIDR held by an existing node is handed out again, before or after any restart;
+* `restart_records_every_holder` — right after a restart every holder is associated with exactly one entry, all its
+  pod CIDRs in use there;
+* `restart_forgets_unwritten_reservations` — whatever the crashed incarnation had reserved without writing it is free:
+  every association after the restart belongs to a listed node;
+* `crash_after_node_write` — a node item with *any* write outcomes, also writes applied although the controller saw
+  an error (the crash point "between a successful write and recording it"), followed by a restart, ends in a state
+  satisfying the invariant.  (Without the restart that outcome is finding P13.)
+* crash points are ordinary histories (`crash_points_are_histories`), the new incarnation is a function of the API
+  state alone (`boot_memoryless`, `boot_depends_on_api_only`).
+
+The fragment (`Restart.Frag3`) = the fragment of `Safety.lean` plus `boot` at any instant (service ranges as Go
+parses them, ClusterCIDR objects with pairwise disjoint ranges), minus three things: a ClusterCIDR is deleted only
+once the controller's finalizer is on it or before the controller has seen it (P15 otherwise), its generation is not
+bumped (an edited ClusterCIDR is rebuilt as terminating and its holders are not recorded — by design of
+`reconcileBootstrap`, judged under the envelope clause `generation-bumped`), and a ClusterCIDR name is re-used only
+once the cache has dropped it.
+
+**Found on the way and repaired**: P25 — start-up recorded the pod CIDRs of nodes that were being deleted, although
+they are released as soon as the deletion timestamp is seen; see `known-findings.json`.
+Outside the fragment the property is false on the pinned code: P10, P12, P23 (witnesses replayed on every run).
 -/
 namespace Ipam.C03
-open Ipam
+open Ipam Ipam.Safety Ipam.Restart
 
-/-- the incarnation that comes up after a restart depends only on the API state (and its own start-up
-parameters): not on the reservations, caches or queues of the incarnation that crashed -/
-theorem boot_memoryless (s : Sys) (al : Alloc) (nv : List NodeObj) (cv : List CCObj) (nq cq : List String) (sv : List Cidr)
-    (svcs : List Cidr) (ws : List WOut) :
-    boot { s with alloc := al, nodeView := nv, ccView := cv, nodeQ := nq, ccQ := cq, svcs := sv } svcs ws = boot s svcs ws := by
-  unfold boot
-  rfl
+/-- **C03 on the fragment**: the invariant survives every event, restarts included -/
+theorem restarts_keep_everything (s : Sys) (hs : Inv3 s) (evs : List Ev) (hf : Frag3All s evs) : Inv3 (run s evs) :=
+  inv3_run evs s hs hf
 
-/-- two incarnations crashing over the same API state come up identically -/
-theorem boot_depends_on_api_only (s t : Sys) (h : s.api = t.api) (svcs : List Cidr) (ws : List WOut) :
-    boot s svcs ws = boot t svcs ws := by
-  have e1 := boot_memoryless s t.alloc t.nodeView t.ccView t.nodeQ t.ccQ t.svcs svcs ws
-  rw [← e1]
-  congr 1
-  cases s; cases t; simp_all
+/-- no CIDR held by an existing node is handed out again, at any moment of any history with restarts -/
+theorem no_overlap_across_restarts (s : Sys) (hs : Inv3 s) (evs : List Ev) (hf : Frag3All s evs) :
+    ∀ x ∈ (run s evs).api.nodes, ∀ y ∈ (run s evs).api.nodes, x.name ≠ y.name → x.deleting = false → y.deleting = false →
+      ∀ a ∈ x.cidrs, ∀ b ∈ y.cidrs, a.fam = b.fam → a.Disjoint b :=
+  Restart.no_overlap_across_restarts s hs evs hf
 
-/-- crash right after an API write whose answer never arrived = that step with outcome `lost`, then a
-restart; crash right before = outcome `fail`, then a restart: both are ordinary histories -/
-theorem crash_points_are_histories (s : Sys) (e : Ev) (svcs : List Cidr) (ws : List WOut) :
-    run s [e, .boot svcs ws] = (boot (step s e).1 svcs ws).1 := by
-  simp [run, step]
+/-- right after a restart every existing holder is recorded, in exactly one entry -/
+theorem restart_records_every_holder {s : Sys} (h : Inv3 s) (svcs : List Cidr) (ws : List WOut) (hf : Frag3 s (.boot svcs ws)) :
+    ∀ v ∈ (boot s svcs ws).1.api.nodes, v.deleting = false → v.cidrs ≠ [] →
+      ∃ i, Claims (boot s svcs ws).1.alloc v.name i ∧ (∀ cd ∈ v.cidrs, UsedAt (boot s svcs ws).1.alloc i cd) ∧
+        ∀ j, Claims (boot s svcs ws).1.alloc v.name j → j = i :=
+  Restart.restart_records_every_holder h svcs ws hf
 
-/-- after the restart the caches equal the API state and every object is queued for processing -/
-theorem boot_views (s : Sys) (svcs : List Cidr) (ws : List WOut) :
-    (boot s svcs ws).1.nodeView = (boot s svcs ws).1.api.nodes ∧ (boot s svcs ws).1.ccView = (boot s svcs ws).1.api.ccs := by
-  unfold boot
-  exact ⟨rfl, rfl⟩
+/-- reservations of the crashed incarnation that never reached a node are gone: every association after the
+restart belongs to a listed node that exists, is not being deleted, and holds exactly the CIDRs in use for it -/
+theorem restart_forgets_unwritten_reservations {s : Sys} (h : Inv3 s) (svcs : List Cidr) (ws : List WOut)
+    (hf : Frag3 s (.boot svcs ws)) :
+    ∀ i x, Claims (boot s svcs ws).1.alloc x i →
+      ∃ v ∈ (boot s svcs ws).1.api.nodes, v.name = x ∧ v.cidrs ≠ [] ∧ ∀ cd ∈ v.cidrs, UsedAt (boot s svcs ws).1.alloc i cd :=
+  Restart.restart_claims_listed h svcs ws hf
 
-/-- start-up order (C03): nodes are listed before the allocator is constructed, informers start afterwards;
-inside the constructor ClusterCIDRs are mapped before the service ranges are occupied, before the listed
-nodes are occupied, before the node handlers are registered -/
-theorem startupOrder : Facts.startupOrder = ["Nodes.List", "NewMultiCIDRRangeAllocator", "Start", "Start", "Run"] ∧
+/-- crash between a successful node write and recording it -/
+theorem crash_after_node_write {s : Sys} (h : Inv3 s) (name : String) (refresh : Bool) (ws : List WOut)
+    (svcs : List Cidr) (ws' : List WOut) (hb : Frag3 (step s (.procNode name refresh ws)).1 (.boot svcs ws')) :
+    Inv3 (run s [.procNode name refresh ws, .boot svcs ws']) :=
+  Restart.crash_after_node_write h name refresh ws svcs ws' hb
+
+/-- the new incarnation is a function of the API state alone (restated from `BootBasics.lean`) -/
+theorem new_incarnation_depends_on_api_only (s t : Sys) (h : s.api = t.api) (svcs : List Cidr) (ws : List WOut) :
+    boot s svcs ws = boot t svcs ws := boot_depends_on_api_only s t h svcs ws
+
+/-- crash right after / right before an API write = that step with outcome `lost` / `fail`, then a restart -/
+theorem crash_points_are_ordinary_histories (s : Sys) (e : Ev) (svcs : List Cidr) (ws : List WOut) :
+    run s [e, .boot svcs ws] = (boot (step s e).1 svcs ws).1 := crash_points_are_histories s e svcs ws
+
+/-- start-up order read from the current source: nodes are listed before the allocator is built, informers start
+afterwards; inside the constructor: ClusterCIDRs, service ranges, listed nodes, node handlers -/
+theorem startup_order_in_source : Facts.startupOrder = ["Nodes.List", "NewMultiCIDRRangeAllocator", "Start", "Start", "Run"] ∧
     Facts.constructorOrder = ["listClusterCIDRs", "reconcileBootstrap", "AddEventHandler:clusterCIDRInformer",
-      "filterOutServiceRange", "filterOutServiceRange", "occupyCIDRs", "AddEventHandler:nodeInformer"] := by decide
+      "filterOutServiceRange", "filterOutServiceRange", "occupyCIDRs", "AddEventHandler:nodeInformer"] := startupOrder
 
+/-- the hypotheses are satisfiable: a start state, and a history of the fragment with three restarts in which a node
+lingers in deletion across a restart after its block went to another node (the shape of finding P25) -/
+example : Inv3 exStart3 ∧ Frag3All exStart3 exHistory3 := ⟨exStart3_inv3, frag3All_of_B _ _ (by decide +kernel)⟩
 
 end Ipam.C03
